@@ -91,7 +91,7 @@ func equal(a, b value) bool {
 	switch x := a.(type) {
 	case *big.Int:
 		y, ok := b.(*big.Int)
-		if !ok {
+		if !ok || x == nil || y == nil {
 			giveUp("comparison of different kinds")
 		}
 		return x.Cmp(y) == 0
